@@ -36,7 +36,7 @@ fn fault_case_strategy() -> impl Strategy<Value = FaultCase> {
 }
 
 fn c18_shard(ctx: &Ctx, out: &mut ShardOut) {
-    let n = ctx.share(ctx.by_tier(1600, 40_000)) as u32;
+    let n = ctx.share(ctx.by_tier(8000, 100_000)) as u32;
     drive_n(ctx, "fault", ctx.shard_seed(1), n, 600, fault_case_strategy(), out, |c| match run_fault_case(c) {
         Ok(st) => Ok(CaseInfo {
             nontrivial: st.in_critical_section > 0 || st.after_removals > 0,
